@@ -246,6 +246,135 @@ def _shared_fragment_ops(s1: int, x1: int, s2: int, x2: int, depth: int, order: 
     return result(ok, expected_valid)
 
 
+# ---- SameResponseShape (spec 5.3.2) across parents that are different object types: every pair of wrapped types
+SHAPE_WRAPS = [w for n in range(4) for w in ("".join(p) for p in __import__("itertools").product("![", repeat=n)) if "!!" not in w]
+SHAPE_BASES = ("Int", "String", "O", "E")
+
+
+def same_response_shape(w1, b1, w2, b2):
+    while True:
+        if w1[:1] == "!" or w2[:1] == "!":
+            if not (w1[:1] == "!" and w2[:1] == "!"):
+                return False
+            w1, w2 = w1[1:], w2[1:]
+        if w1[:1] == "[" or w2[:1] == "[":
+            if not (w1[:1] == "[" and w2[:1] == "["):
+                return False
+            w1, w2 = w1[1:], w2[1:]
+            continue
+        break
+    if b1 in ("Int", "String", "E") or b2 in ("Int", "String", "E"):
+        return b1 == b2
+    return True            # both composite: the (identical) sub-selections are merged
+
+
+def shape_world(w1, b1, w2, b2):
+    from py_gql.schema import EnumType, Field, Int, ListType, NonNullType, ObjectType, Schema, String, UnionType
+    o = ObjectType("O", [Field("z", Int)])
+    base = {"Int": Int, "String": String, "O": o, "E": EnumType("E", ["X", "Y"])}
+
+    def build(w, b):
+        t = base[b]
+        for c in reversed(w):
+            t = NonNullType(t) if c == "!" else ListType(t)
+        return t
+
+    def value(w, b):
+        v = {"Int": 1, "String": "s", "O": {"z": 2}, "E": "X"}[b]
+        for c in reversed(w):
+            if c == "[":
+                v = [v]
+        return v
+    a = ObjectType("A", [Field("v", build(w1, b1)), Field("k", Int)])
+    bb = ObjectType("B", [Field("v", build(w2, b2)), Field("k", Int)])
+    u = UnionType("U", [a, bb], resolve_type=lambda v, *_: v["t"])
+    q = ObjectType("Query", [Field("us", ListType(u))])
+    return Schema(q), {"us": [{"t": "A", "v": value(w1, b1), "k": 1}, {"t": "B", "v": value(w2, b2), "k": 2}]}
+
+
+def _response_shapes(w1: int, b1: int, w2: int, b2: int, via: int) -> bool:
+    """
+    pre: 0 <= w1 < len(SHAPE_WRAPS) and 0 <= w2 < len(SHAPE_WRAPS) and 0 <= b1 < len(SHAPE_BASES) and 0 <= b2 < len(SHAPE_BASES) and 0 <= via <= 2
+    pre: shard_of(w1)
+    post: _
+    """
+    W1, W2, B1, B2 = pick(w1, SHAPE_WRAPS), pick(w2, SHAPE_WRAPS), pick(b1, SHAPE_BASES), pick(b2, SHAPE_BASES)
+    V = concrete_int(via, 0, 2)
+    with untraced():
+        schema, root = shape_world(W1, B1, W2, B2)
+        s1, s2 = ("v { z }" if B1 == "O" else "v"), ("v { z }" if B2 == "O" else "v")
+        text = ("{ us { ... on A { %s } ... on B { %s } } }", "{ us { ...FA ...FB } } fragment FA on A { %s } fragment FB on B { %s }",
+                "{ us { ... on A { k %s } k: __typename ... on B { x: k %s } } }")[V] % (s1, s2)
+        if V == 2:
+            # control: k (Int) against k: __typename (String!) must conflict whatever v is
+            exp_ok = False
+        else:
+            exp_ok = same_response_shape(W1, B1, W2, B2)
+        errors = validate_ast(schema, parse(text)).errors
+        ok = (not errors) == exp_ok
+        if ok and not errors:
+            # validated, so the response has one unambiguous shape per key: both list items carry v with the SAME wrapper structure
+            data = graphql_blocking(schema, text, root=root).response().get("data")
+            ok = data is not None and [depth_of(item["v"]) for item in data["us"]] == [W1.count("[")] * 2
+    return result(ok, True)
+
+
+def depth_of(v):
+    n = 0
+    while isinstance(v, list):
+        n += 1
+        v = v[0]
+    return n
+
+
+# ---- conflicts that are only visible through (nested) fragment spreads: depth x depth x fragment-name length x definition order x parent
+NAME_STYLES = (lambda side, i: "ABCDEF"[side * 3 + i], lambda side, i: ("Aa", "Bb")[side] + "xyz"[i], lambda side, i: ("Left", "Right")[side] + "Frag" + str(i),
+               lambda side, i: ("F", "Fx")[side] + "_" * i)
+
+
+def nested_conflict_document(d1, d2, style, reverse, parent, conflict, shared_tail):
+    on, f1, f2 = (("Query", "x: n", "x: echo"), ("User", "x: name", "x: age"))[parent]
+    if not conflict:
+        f2 = f1
+    name = NAME_STYLES[style]
+    defs, tops = [], []
+    for side, depth, leaf in ((0, d1, f1), (1, d2, f2)):
+        if depth == 0:
+            tops.append(leaf)
+            continue
+        tops.append("...%s" % name(side, 0))
+        for i in range(depth):
+            body = leaf if i == depth - 1 else "...%s" % name(side, i + 1)
+            if shared_tail and i == depth - 1:
+                body = "%s ...Tail" % leaf
+            defs.append("fragment %s on %s { %s }" % (name(side, i), on, body))
+    if shared_tail and (d1 or d2):
+        defs.append("fragment Tail on %s { __typename }" % on)
+    if reverse:
+        defs.reverse()
+    sel = " ".join(tops)
+    op = "{ %s }" % sel if parent == 0 else "{ me { %s } }" % sel
+    return " ".join([op] + defs) if not reverse else " ".join(defs + [op])
+
+
+def _nested_conflicts(d1: int, d2: int, style: int, reverse: bool, parent: int, conflict: bool, shared_tail: bool) -> bool:
+    """
+    pre: 0 <= d1 <= 3 and 0 <= d2 <= 3 and 0 <= style < len(NAME_STYLES) and 0 <= parent <= 1
+    pre: shard_of(d1 * 4 + d2)
+    post: _
+    """
+    D1, D2, ST, P = concrete_int(d1, 0, 3), concrete_int(d2, 0, 3), concrete_int(style, 0, len(NAME_STYLES) - 1), concrete_int(parent, 0, 1)
+    RV, CF, TL = (True if reverse else False), (True if conflict else False), (True if shared_tail else False)
+    with untraced():
+        text = nested_conflict_document(D1, D2, ST, RV, P, CF, TL)
+        errors = validate_ast(G.build_real_schema(), parse(text)).errors
+        reported = any("conflict" in str(e) for e in errors)
+        ok = reported == CF and bool(errors) == CF
+        if ok and not CF:
+            ok, _ = check_document(text, {})
+    return result(ok, CF)
+
+
 CONDITIONS = [
     Cond(
         name="shared_fragment_ops", fn=_shared_fragment_ops, quick=100, thorough=200, per_path=60, shards_quick=15, shards_thorough=15,
@@ -253,6 +382,20 @@ CONDITIONS = [
               "wrong type, missing), both definition orders: validation accepts exactly when BOTH operations declare compatible types, and then both execute",
         symbolic={"s1,x1,s2,x2": "choice: variable declarations of the two operations", "depth": "choice: direct or transitive usage", "order": "choice: definition order"},
         assumptions=["reference: spec 5.8.3-5.8.5 (undefined / unused / allowed variable usages) for this family"], witness={"s1": 0, "x1": 0, "s2": 0, "x2": 1, "depth": 0, "order": True},
+    ),
+    Cond(
+        name="response_shapes", fn=_response_shapes, quick=150, thorough=300, per_path=60, shards_quick=len(SHAPE_WRAPS), shards_thorough=len(SHAPE_WRAPS),
+        bound="the same response key on two different object types of a union, field types = every pair of wrapper lists of <= 3 wrappers over {Int, String, enum, object} (44 x 44), through inline or named fragments "
+              "(+ a control that must always conflict): validation accepts exactly when SameResponseShape holds, and an accepted operation returns the same list structure for both",
+        symbolic={"w1,b1,w2,b2": "choice: the two field types", "via": "choice: inline / named fragments / control"},
+        assumptions=["reference: SameResponseShape (spec 5.3.2)"], witness={"w1": 1, "b1": 0, "w2": 1, "b2": 0, "via": 0},
+    ),
+    Cond(
+        name="nested_conflicts", fn=_nested_conflicts, quick=100, thorough=200, per_path=60, shards_quick=16, shards_thorough=16,
+        bound="two same-key selections, each written directly or at the bottom of a chain of 1..3 nested fragment spreads (4 x 4 depths) x 4 fragment naming styles (one letter, two letters with a common letter, long names, "
+              "names that are prefixes of each other) x definition order x root / nested parent x conflicting or identical fields x a further shared fragment: a conflict is reported exactly when the fields differ",
+        symbolic={"d1,d2": "choice: nesting depths", "style": "choice: fragment names", "reverse,parent,conflict,shared_tail": "choice"},
+        assumptions=["reference: FieldsInSetCanMerge (spec 5.3.2) for two fields of one parent type"], witness={"d1": 2, "d2": 1, "style": 1, "reverse": False, "parent": 0, "conflict": True, "shared_tail": False},
     ),
     Cond(
         name="merge_triples", fn=_merge_triples, quick=100, thorough=200, per_path=60, shards_quick=9, shards_thorough=9,
@@ -271,7 +414,7 @@ CONDITIONS = [
         witness={"src": 0, "fail": 0},
     ),
     Cond(
-        name="sound_edit", fn=_sound_edit, quick=300, thorough=1500, per_path=60, shards_quick=16, shards_thorough=NS,
+        name="sound_edit", fn=_sound_edit, quick=400, thorough=1500, per_path=60, shards_quick=16, shards_thorough=NS,
         bound="every single-token edit (substitute / delete / insert, %d-token alphabet of schema names, keywords, punctuation, literals) of the same %d documents that still parses (quick: substitutions and deletions only)" % (len(ALPHABET), NS),
         symbolic={"src": "choice: document", "kind": "choice: edit kind", "pos": "choice: position", "code": "choice: token"},
         assumptions=["as sound_source"], expect_exhaust=False,
